@@ -145,6 +145,7 @@ let handle check diff (toks : string list) (raw : string) : bool =
     Hashtbl.iter (fun k v -> if not (Hashtbl.mem seen k) then (incr bad; if !bad <= 5 then diff "K" (raw ^ " key=" ^ k) v "<absent>")) n.shadow;
     (* body id <-> body structure must be a bijection over the whole history *)
     Stdlib.List.iter (fun (b : block) ->
+        if zs b.b_bodyid <> "-1" then
         let s = body_str b false ^ " F " ^ frame_digest b.b_frame and i = zs b.b_bodyid in
         (match Hashtbl.find_opt body_of_id i with
          | Some s' when s' <> s -> incr bad; diff "K" (raw ^ " bodyid=" ^ i) "one body per id" "two model bodies for one implementation body hash"
@@ -153,5 +154,5 @@ let handle check diff (toks : string list) (raw : string) : bool =
          | Some i' when i' <> i -> incr bad; diff "K" (raw ^ " bodyid=" ^ i) "one id per body" "two implementation body hashes for one model body"
          | None -> Hashtbl.replace id_of_body s i | _ -> ())) n.st.delivered;
     if !bad = 0 then check "K" raw "" "" ; true
-  | ("Z" | "V") :: _ -> true
+  | ("Z" | "V" | "#") :: _ -> true
   | _ -> false
